@@ -20,6 +20,10 @@ from .values import (Unsupported, Opaque, UNINIT, IntSym, EnumMember, FuncVal, B
                      keyof, mkarr, cell, full, is_arr, SymIdx, SymArr, Phi)
 
 
+_KNOWN_DECORATORS = {"njit", "jit", "wraps", "staticmethod", "classmethod", "contextmanager", "defined_if", "unique", "dataclass", "serializable",
+                     "remote", "property", "vectorize", "guvectorize", "cached_property", "overload", "abstractmethod", "final", "override"}
+
+
 class ReturnSig(Exception):
     def __init__(self, v):
         self.v = v
@@ -131,6 +135,10 @@ class Interp:
         self.executed = {}                 # qualname -> FuncVal of every repository function interpreted
         self.branches = []                 # (guard, ("join", None), loc, function) for data-dependent store-only ifs joined into selects
         self.havocs = []                   # (id, fresh symbols, loc) for opaque values stored into numeric arrays
+        self.force_exit = None             # index (in order of evaluation) of ONE data-dependent early exit that is taken instead of skipped
+        self.forced = None                 # (guard that was forced to hold, loc) once that happened
+        self._exit_occ = {}
+        self.exit_ids = []                 # (index into self.guards, loc, occurrence at that loc) of every data-dependent early exit met
         from . import npmodel
         self.np = npmodel.NumpyModel(self)
 
@@ -384,6 +392,26 @@ class Interp:
                 return self.ev(fv.node.body, env)
             finally:
                 self.callstack.pop()
+        memo = None
+        for d in fv.decorators:
+            dn = (_dotted(d.func if isinstance(d, ast.Call) else d) or "").split(".")[-1]
+            if dn in ("lru_cache", "cache"):
+                # functools memoisation: one table per function, living as long as the module (it persists across calls and interpreters
+                # of one analysed program, like any module-level state); a hit returns the very object stored by the first call
+                memo = fv.module.globals_cache.setdefault("__memo__:" + fv.qualname, {})
+            elif dn and dn not in _KNOWN_DECORATORS:
+                return self.opaque(f"call of {fv.qualname}, whose decorator @{dn} is not modelled", node)
+        if memo is not None:
+            mkey = (keyof(list(args)), keyof(sorted(kwargs.items(), key=lambda kv: kv[0])))
+            if mkey in memo:
+                self.emit("memo-hit", (fv.qualname,), node)
+                return memo[mkey]
+            ret = self._call_function_body(fv, args, kwargs, node)
+            memo[mkey] = ret
+            return ret
+        return self._call_function_body(fv, args, kwargs, node)
+
+    def _call_function_body(self, fv, args, kwargs, node=None):
         env = self.bind_args(fv, args, kwargs, node)
         self.executed[fv.qualname] = fv
         is_gen = _is_generator(fv.node)
@@ -787,6 +815,19 @@ class Interp:
         refine = self.phi_refinements(st.test, c, env)
         body_exits = _always_exits(st.body)
         else_exits = _always_exits(st.orelse) if st.orelse else False
+        if body_exits != else_exits:
+            here = (self.loc(st, env), self.curfunc())
+            occ = self._exit_occ.get(here, 0)
+            self._exit_occ[here] = occ + 1
+            self.exit_ids.append((len(self.guards), here[0], occ))     # the guard appended next is this exit
+            if self.force_exit is not None and self.forced is None and self.force_exit == (here[0], occ):
+                # this one early exit is followed for real: its condition holds from here on
+                g = c if body_exits else c.negate()
+                self.forced = (g, here[0], here[1])
+                self.learn(g)
+                for k, (va, vb) in refine.items():
+                    env.vars[k] = va if body_exits else vb
+                return self.block(st.body if body_exits else st.orelse, env)
         if body_exits and not else_exits:
             outcome = self.run_exit_branch(st.body, env)
             self.guards.append((c, outcome, self.loc(st, env), self.curfunc()))
